@@ -204,7 +204,7 @@ func bodyDial(r *sim.Run) {
 		w.noteAddrs(h)
 	}
 	for _, a := range addrPool {
-		w.n.setState(netip.MustParseAddr(a), t.Weighted([]int{7, 2, 1}))
+		w.n.setState(netip.MustParseAddr(a), t.Weighted([]int{7, 2, 1, 2}))
 	}
 	w.allow, _ = withJunk(t, sim.Pick(t, allowSets))
 	var junk bool
@@ -293,7 +293,7 @@ func bodyDial(r *sim.Run) {
 			r.Logf("t=%v change: %s now resolves to %s", r.Now(), h.name, fmtAddrs(h))
 		case 2:
 			ip := netip.MustParseAddr(sim.Pick(t, addrPool))
-			st := t.Weighted([]int{5, 3, 1})
+			st := t.Weighted([]int{5, 3, 1, 2})
 			w.n.setState(ip, st)
 			r.Logf("t=%v change: %s is now %s", r.Now(), ip, ipStateNames[st])
 		case 3:
